@@ -458,8 +458,18 @@ void
 message_set_header(struct message *msg, const char *header, char *val)
 {
 	struct header *hdr;
+	char *p;
 	ssize_t idx;
 	size_t nfound;
+
+	/*
+	 * The value might be made up of text originating from the message, a
+	 * line break must never end the header.
+	 */
+	for (p = val; *p != '\0'; p++) {
+		if (*p == '\n' || *p == '\r')
+			*p = ' ';
+	}
 
 	idx = searchheader(msg->me_headers, VECTOR_LENGTH(msg->me_headers),
 	    header, &nfound);
